@@ -99,6 +99,7 @@ def run_case(case, tier):
         recs, d = multiconf.build(rng, base=[r for r in recs if r.raw is not None or r.tag == "ATOM  "])
         classes.append("multi-conformation")
     text = pdbio.dump(recs)
+    opts = opts + util.neutral_options(rng, classes=classes)
     run = obs.run_single(text, opts, write_pka=False)
     counts["pipeline_runs"] = 1
     desc.update(sources.describe(recs))
